@@ -202,6 +202,25 @@ def zero_amplitude(run, hvsrpy):
                           f"std curve {std_l.tolist()}; the estimators over the accepted windows {acc} give {want_mean.tolist()} / {want_std.tolist()}",
                           dict(kind="zero-amp", rejected=list(rejected)))
         run.case(("zero-amp", rejected))
+    # a REJECTED window may hold anything - also a value that is not finite (H/V of a dead vertical channel): it has no influence
+    rows_inf = rows.copy()
+    rows_inf[0, col] = 1.0
+    rows_inf[1, 2] = np.inf
+    obj = hvsrpy.HvsrTraditional(f, rows_inf)
+    obj.valid_window_boolean_mask[1] = False
+    obj.valid_peak_boolean_mask[1] = False
+    acc = [0, 2, 3, 4]
+    for dist, pre in (("lognormal", np.log), ("normal", lambda x: x)):
+        with warnings.catch_warnings():
+            warnings.simplefilter("ignore")
+            m_, s_, n_ = obj.mean_curve(dist), obj.std_curve(dist), obj.nth_std_curve(1, dist)
+        wm, ws = np.mean(pre(rows_inf[acc]), axis=0), np.std(pre(rows_inf[acc]), axis=0, ddof=1)
+        wm_out = np.exp(wm) if dist == "lognormal" else wm
+        wn = np.exp(wm + ws) if dist == "lognormal" else wm + ws
+        if not (np.allclose(m_, wm_out, rtol=1e-12) and np.allclose(s_, ws, rtol=1e-10) and np.allclose(n_, wn, rtol=1e-10)):
+            run.violation("stat:non-finite-in-rejected-window", f"{dist}: window 1 is rejected and holds inf at {f[2]} Hz: mean curve {np.asarray(m_).tolist()}, std curve "
+                          f"{np.asarray(s_).tolist()}; the estimators over the accepted windows {acc} give {wm_out.tolist()} / {ws.tolist()}", dict(kind="inf-rejected", dist=dist))
+        run.case(("inf-rejected", dist))
 
 
 def main():
